@@ -1,18 +1,37 @@
 ---------------------------- MODULE MC_FontCache ----------------------------
 (***************************************************************************)
-(* Exploration of FontCache over a small universe of calls.  The state of  *)
-(* the model is the cache contents; `path` remembers one shortest history  *)
-(* reaching it (hidden by VIEW).  For every reachable cache state and      *)
-(* every call:                                                             *)
+(* Exploration of FontCache over a small universe of fonts and calls.  The *)
+(* state of the model is the cache contents (with the font it belongs to); *)
+(* `path` remembers one shortest history reaching it (hidden by VIEW).     *)
+(* For every reachable cache state and every call:                         *)
 (*   CodeKeys = FALSE : invariant AllPure - the intended keying is pure    *)
 (*   CodeKeys = TRUE  : no purity invariant; one CASE per state lists, for *)
 (*                      every call, whether the code's keying makes it     *)
 (*                      impure after this history, and which slot is stale *)
 (* StaleIffImpure (the model's explanation is exact) is checked in both.   *)
+(*                                                                         *)
+(* Three families of fonts, each with its own universe of calls:           *)
+(*   intact  : the plain font; glyph mapping, shaping under scripts, masks *)
+(*             and tuples, images and image filters, advances, names       *)
+(*   dmg     : a font one (or several) of whose lazily loaded tables is    *)
+(*             present but fails to load; table accessors, shaping,        *)
+(*             vertical advances, image queries and filters                *)
+(*   collide : a font whose GSUB and/or GPOS is larger than 64 KiB and     *)
+(*             holds Coverage and ClassDef tables at positions congruent   *)
+(*             mod 2^16 and mod 2^8 (and at equal offsets from their       *)
+(*             sub-tables), and lookups at indices congruent mod 2^8, each *)
+(*             activated by a feature of its own; shaping with every       *)
+(*             single feature and with all of them, as a mask and as a     *)
+(*             custom feature list                                         *)
+(* The layout of the collide fonts is part of the CASE: the harness builds *)
+(* the bytes from it.                                                      *)
 (***************************************************************************)
 EXTENDS FontCache, Json, SequencesExt
 
-CONSTANT MaxDepth
+CONSTANTS MaxDepth,        \* depth of histories on the intact font
+          MaxDepthDmg,     \* ... on a font with a damaged table
+          MaxDepthCollide, \* ... on a font with colliding cache keys
+          Families         \* which families are explored
 
 VARIABLES st, path
 vars == <<st, path>>
@@ -25,27 +44,94 @@ Filters == {"default", "empty", "bw"}
 TextDC == <<[ch |-> "A", vs |-> "none"], [ch |-> "DC", vs |-> "none"]>>
 TextVS == <<[ch |-> "DC", vs |-> "VS16"], [ch |-> "A", vs |-> "none"]>>
 
-Calls ==
+\* ---- fonts ----------------------------------------------------------------
+Kinds       == {"gsub", "gpos", "gdef", "morx", "kern", "vhea", "vmtx", "images"}
+TableKinds  == {"gsub", "gpos", "gdef", "morx", "kern", "vhea"}     \* kinds with a public accessor
+DmgFont(ks) == [fam |-> "dmg", damaged |-> ks, lookups |-> <<>>]
+DmgFonts    == {DmgFont(<<k>>) : k \in Kinds}
+               \cup {DmgFont(<<"gsub", "gpos">>), DmgFont(<<"gsub", "gpos", "gdef", "morx", "kern">>),
+                     DmgFont(<<"vhea", "vmtx">>)}
+
+\* Layout of one layout table of a collide font.  Sub-tables of `single` lookups keep their Coverage
+\* 8 bytes in; `class` lookups (GSUB: ContextSubst format 2 naming lookup 6; GPOS: PairPos format 2)
+\* keep their Coverage 32 and their ClassDef 64 bytes in.  Positions: X, X + 256, X + 65536.
+Obj(kind, sub, rel, content) == [kind |-> kind, pos |-> sub + rel, rel |-> rel, content |-> content]
+Single(tbl, idx, feat, sub, content) ==
+  [tbl |-> tbl, idx |-> idx, feat |-> feat, typ |-> "single", ext |-> sub >= 65536, sub |-> sub,
+   objs |-> <<Obj("cov", sub, 8, content)>>, nested |-> <<>>]
+Class(tbl, idx, feat, sub, content) ==
+  [tbl |-> tbl, idx |-> idx, feat |-> feat, typ |-> "class", ext |-> sub >= 65536, sub |-> sub,
+   objs |-> <<Obj("cov", sub, 32, IF tbl = "GSUB" THEN "EFG" ELSE "X"), Obj("cls", sub, 64, content)>>,
+   nested |-> IF tbl = "GSUB" THEN <<6>> ELSE <<>>]
+Layout(tbl) ==
+  <<Single(tbl, 0, "liga", 2560, "A"),             \* Coverage at 2568
+    Single(tbl, 1, "dlig", 2560 + 65536, "B"),     \* ... + 65536 : same u16, same u8
+    Single(tbl, 2, "hlig", 2560 + 256, "C"),       \* ... + 256   : same u8
+    Class(tbl, 3, "calt", 3072, "E"),              \* ClassDef at 3136
+    Class(tbl, 4, "rlig", 3072 + 65536, "F"),      \* ... + 65536
+    Class(tbl, 5, "clig", 3072 + 256, "G"),        \* ... + 256
+    Single(tbl, 6, "none", 3712, "EFG"),           \* the lookup the class rules of GSUB name
+    Single(tbl, 256, "smcp", 3840 + 16, "I")>>     \* lookup index 256: same u8 as lookup 0
+CollideFont(tbls) == [fam |-> "collide", damaged |-> <<>>,
+                      lookups |-> (IF "GSUB" \in tbls THEN Layout("GSUB") ELSE <<>>)
+                                  \o (IF "GPOS" \in tbls THEN Layout("GPOS") ELSE <<>>)]
+CollideFonts == {CollideFont({"GSUB"}), CollideFont({"GPOS"}), CollideFont({"GSUB", "GPOS"})}
+
+Fonts == (IF "intact" \in Families THEN {PlainFont} ELSE {})
+         \cup (IF "dmg" \in Families THEN DmgFonts ELSE {})
+         \cup (IF "collide" \in Families THEN CollideFonts ELSE {})
+
+\* ---- calls ----------------------------------------------------------------
+ShapeCall(s, m, t, custom, feats) ==
+  [op |-> "Shape", text |-> "w1", script |-> s, lang |-> "l1", mask |-> m, tuple |-> t, kern |-> TRUE,
+   custom |-> custom, feats |-> feats]
+TableCalls == {[op |-> "Table", k |-> k] : k \in TableKinds}
+
+IntactCalls ==
        {[op |-> "LookupGlyph", ch |-> c, pres |-> p, vs |-> v] : c \in Chars, p \in Pres, v \in VSs}
   \cup {[op |-> "MapGlyphs", text |-> t, script |-> "s1", pres |-> p] : t \in {TextDC, TextVS}, p \in Pres}
-  \cup {[op |-> "Shape", text |-> "w1", script |-> s, lang |-> "l1", mask |-> m, tuple |-> t, kern |-> TRUE] :
-           s \in {"s1", "s2"}, m \in {"m1", "m2"}, t \in Tuples}
+  \cup {ShapeCall(s, m, t, FALSE, <<>>) : s \in {"s1", "s2"}, m \in {"m1", "m2"}, t \in Tuples}
   \cup {[op |-> "Image", g |-> 1], [op |-> "HasImages"], [op |-> "HAdvance", g |-> 1], [op |-> "VAdvance", g |-> 1],
         [op |-> "GlyphNames", g |-> 1]}
   \cup {[op |-> "SetFilter", f |-> f] : f \in Filters}
 
-Init == st = InitState /\ path = <<>>
-Next == /\ Len(path) < MaxDepth
-        /\ \E c \in Calls : /\ st' = Step(st, c).st
-                            /\ st' # st
-                            /\ path' = Append(path, c)
+DmgCalls ==
+       TableCalls
+  \cup {ShapeCall("s1", "m1", "none", FALSE, <<>>), ShapeCall("s1", "m1", "none", TRUE, <<>>)}
+  \cup {[op |-> "Image", g |-> 1], [op |-> "HasImages"], [op |-> "VAdvance", g |-> 1],
+        [op |-> "LookupGlyph", ch |-> "EM", pres |-> "Req", vs |-> "none"]}
+  \cup {[op |-> "SetFilter", f |-> f] : f \in {"default", "empty"}}
+
+CollideFeats == {"liga", "dlig", "hlig", "calt", "rlig", "clig", "smcp"}
+AllFeats     == <<"calt", "clig", "dlig", "hlig", "liga", "rlig", "smcp">>
+CollideCalls ==
+       {ShapeCall("s1", f, "none", cu, <<f>>) : f \in CollideFeats, cu \in BOOLEAN}
+  \cup {ShapeCall("s1", "all", "none", cu, AllFeats) : cu \in BOOLEAN}
+
+\* calls that extend a history / calls probed after it
+PathCalls(font) == CASE font.fam = "intact"  -> IntactCalls
+                     [] font.fam = "dmg"     -> DmgCalls
+                     [] font.fam = "collide" -> CollideCalls
+FanCalls(font)  == CASE font.fam = "intact"  -> IntactCalls \cup TableCalls
+                     [] font.fam = "dmg"     -> DmgCalls \cup {[op |-> "HAdvance", g |-> 1]}
+                     [] font.fam = "collide" -> CollideCalls \cup {[op |-> "Table", k |-> "gsub"], [op |-> "Table", k |-> "gpos"]}
+DepthOf(font)   == CASE font.fam = "intact"  -> MaxDepth
+                     [] font.fam = "dmg"     -> MaxDepthDmg
+                     [] font.fam = "collide" -> MaxDepthCollide
+
+Init == /\ \E f \in Fonts : st = InitStateOf(f)
+        /\ path = <<>>
+Next == /\ Len(path) < DepthOf(st.font)
+        /\ \E c \in PathCalls(st.font) : /\ st' = Step(st, c).st
+                                         /\ st' # st
+                                         /\ path' = Append(path, c)
 Spec == Init /\ [][Next]_vars
 View == <<st, Len(path)>>
 
-AllPure      == \A c \in Calls : PureStep(st, c)
-ModelExact   == \A c \in Calls : StaleIffImpure(st, c)
+AllPure      == \A c \in FanCalls(st.font) : PureStep(st, c)
+ModelExact   == \A c \in FanCalls(st.font) : StaleIffImpure(st, c)
 
 Fan == {[call |-> c, impure |-> ~PureStep(st, c),
-         causes |-> CausesSeq(Step(st, c).stale)] : c \in Calls}
-EmitCase == PrintT(<<"CASE", ToJson([path |-> path, fan |-> SetToSeq(Fan)])>>)
+         causes |-> CausesSeq(Step(st, c).stale)] : c \in FanCalls(st.font)}
+EmitCase == PrintT(<<"CASE", ToJson([font |-> st.font, path |-> path, fan |-> SetToSeq(Fan)])>>)
 =============================================================================
